@@ -7,6 +7,7 @@
 #include "gm2calc/gm2_error.hpp"
 
 #include <algorithm>
+#include <cerrno>
 #include <cfenv>
 #include <clocale>
 #include <iostream>
@@ -188,12 +189,23 @@ struct EnvSnap {
    }
 };
 
+/// sequential-alt reference only: before every operation errno and the sticky floating-point exception flags are set to
+/// "whatever an unrelated earlier computation may have left there" (ERANGE/EDOM/EINVAL, all FP flags raised).  Their
+/// values at function entry are unspecified for any library function; code that reads them without clearing them first
+/// makes results depend on what ran before on the same thread.
+bool g_inject_stale_thread_state = false;
+uint64_t g_inject_counter = 0;
 bool g_check_copy = false; ///< sequential reference only: every evaluation is repeated on a fresh copy of its model
 
 /// one operation of a task program; identical code path in simulated and sequential executions
 OpResult exec_op_inner(Context& c, const std::vector<std::string>& t, std::vector<std::string>& modified);
 OpResult exec_op(Context& c, const std::vector<std::string>& t, std::vector<std::string>& modified)
 {
+   if (g_inject_stale_thread_state) {
+      static const int stale[] = {ERANGE, EDOM, EINVAL, ENOMEM};
+      errno = stale[g_inject_counter++ % 4];
+      std::feraiseexcept(FE_INVALID | FE_DIVBYZERO | FE_OVERFLOW | FE_UNDERFLOW | FE_INEXACT);
+   }
    const EnvSnap before = EnvSnap::take();
    OpResult r = exec_op_inner(c, t, modified);
    if (const char* d = EnvSnap::take().diff(before)) modified.push_back(std::string("global_env:") + d + ":" + (t[0] == "ev" && t.size() > 1 ? t[1] : t[0]));
@@ -451,6 +463,8 @@ RunOut run_plan(const std::vector<std::string>& lines, uint64_t run_index)
    out.seq_events = thrsim::sequential_events();
    // ... and either reverse task order, or every operation twice in a row
    g_prog.set(run_index, 3, "sequential-alt");
+   g_inject_stale_thread_state = true; g_inject_counter = run_index;
+   struct StaleOff { ~StaleOff() { g_inject_stale_thread_state = false; errno = 0; std::feclearexcept(FE_ALL_EXCEPT); } } stale_off;
    if (plan.seq_variant == 0) {
       // reverse task order, and inside each task every maximal run of consecutive read-only operations
       // (evaluate / print / SM layer) in reverse order: read-only operations commute, so every result
